@@ -374,7 +374,7 @@ def run(ctx):
     run_corpus(ctx, collect)
     n_worlds = ctx.n(8, 40)
     docs_per_world = ctx.n(3, 6)
-    budget = 17 if ctx.tier == "quick" else 220
+    budget = 17 if ctx.tier == "quick" else 175
     ctx.direct_deadline = time.time() + budget
     for i in range(n_worlds):
         if time.time() > ctx.direct_deadline:
